@@ -198,6 +198,11 @@ let level_of_table (sv : superversion) (id : int) =
     | lvl :: rest -> if List.exists (fun r -> List.exists (fun t -> int_of_n t.tid = id) r) lvl then i else go (i + 1) rest in
   go 0 sv.ver.levels
 
+let rec nat_of_int i = if i <= 0 then O else S (nat_of_int (i - 1))
+let layout (v : version) =
+  String.concat ";" (List.map (fun lvl -> String.concat "|" (List.map (fun r -> String.concat "," (List.map (fun t -> string_of_int (int_of_n t.tid)) r)) lvl)) v.levels)
+let by_kmin ts = List.sort (fun a b -> match key_cmp a.kmin b.kmin with Lt -> -1 | Eq -> 0 | Gt -> 1) ts
+
 let check_step_model ~(wm : n) (pre : superversion) (post : superversion) =
   let pre_ids = table_ids pre and post_ids = table_ids post in
   let removed = List.filter (fun i -> not (List.mem i post_ids)) pre_ids in
@@ -214,7 +219,11 @@ let check_step_model ~(wm : n) (pre : superversion) (post : superversion) =
     if List.for_all (fun t -> N.eqb t.gseq N0) added_tabs then begin
       if not (entries_eq out out_impl) then
         drift "flush-stream" (Printf.sprintf "model=%d impl=%d entries" (List.length out) (List.length out_impl))
-      else bump "flush_stream_agree"
+      else bump "flush_stream_agree";
+      let mv = with_new_l0_run pre.ver (by_kmin added_tabs) in
+      if layout mv <> layout post.ver then drift "layout-flush" (Printf.sprintf "model=%s impl=%s" (layout mv) (layout post.ver))
+      else bump "layout_agree";
+      if not (l0_choice_ok pre.ver (by_kmin added_tabs)) then drift "l0-choice" "l0_choice_ok false on a real flush"
     end
   end else if removed <> [] && added <> [] then begin
     (* merge: output = stream(merge(inputs)), eviction iff destination is the last level *)
@@ -227,11 +236,35 @@ let check_step_model ~(wm : n) (pre : superversion) (post : superversion) =
     if not (entries_eq out out_impl) then
       drift "merge-stream" (Printf.sprintf "dest=%d evict=%b model=%d impl=%d entries" dest evict (List.length out) (List.length out_impl))
     else bump "merge_stream_agree";
+    let removed_n = List.map n_of_int removed in
+    let mv = with_merge pre.ver removed_n (by_kmin added_tabs) (nat_of_int dest) in
+    if layout mv <> layout post.ver then drift "layout-merge" (Printf.sprintf "model=%s impl=%s" (layout mv) (layout post.ver))
+    else bump "layout_agree";
+    if not (merge_choice_ok pre.ver removed_n (by_kmin added_tabs) (nat_of_int dest)) then
+      drift "merge-choice" (Printf.sprintf "merge_choice_ok false on a real merge into L%d" dest);
     if evict then bump "evicting_merges"
-  end else if removed <> [] && added = [] then bump "drop_steps"
+  end else if removed <> [] && added = [] then begin
+    bump "drop_steps";
+    let words = String.split_on_char ' ' !op_text in
+    (match words with
+     | ("droprange" | "fifo") :: _ ->
+       let mv = with_dropped pre.ver (List.map n_of_int removed) in
+       if layout mv <> layout post.ver then drift "layout-drop" (Printf.sprintf "model=%s impl=%s" (layout mv) (layout post.ver))
+       else bump "layout_agree"
+     | _ -> ())
+  end
   else if removed = [] && added = [] && pre_ids <> [] then begin
-    let moved = List.exists (fun i -> level_of_table pre i <> level_of_table post i) pre_ids in
-    if moved then bump "move_steps"
+    let moved_ids = List.filter (fun i -> level_of_table pre i <> level_of_table post i) pre_ids in
+    if moved_ids <> [] then begin
+      bump "move_steps";
+      let dest = level_of_table post (List.hd moved_ids) in
+      let ids_n = List.map n_of_int moved_ids in
+      let mv = with_moved pre.ver ids_n (nat_of_int dest) in
+      if layout mv <> layout post.ver then drift "layout-move" (Printf.sprintf "model=%s impl=%s" (layout mv) (layout post.ver))
+      else bump "layout_agree";
+      if not (move_choice_ok pre.ver ids_n (nat_of_int dest)) then
+        drift "move-choice" (Printf.sprintf "move_choice_ok false on a real move into L%d" dest)
+    end
   end
 
 (* ---------- operations that remove data by design: drop_range, clear, fifo ----------
@@ -258,6 +291,14 @@ let apply_destructive_op (pre : superversion) (post : superversion) =
     let removed = List.filter (fun t -> not (List.mem (int_of_n t.tid) post_ids)) (all_tables pre.ver) in
     let added = List.filter (fun i -> not (List.mem i pre_ids)) post_ids in
     if added <> [] then fail "drop-added" "drop_range created tables";
+    (* model agreement: the DropRange strategy's selection *)
+    let runs = List.map (fun r -> List.map (fun t -> { t_id = t.tid; t_min = t.kmin; t_max = t.kmax }) r) (all_runs pre.ver) in
+    let want = (if bounds_is_empty lo hi then None else drop_range_choose lo hi runs []) in
+    let want_ids = List.sort compare (match want with None -> [] | Some l -> List.map int_of_n l) in
+    let got_ids = List.sort compare (List.map (fun t -> int_of_n t.tid) removed) in
+    bump "droprange_model_checked";
+    if want_ids <> got_ids then
+      drift "model-droprange" (Printf.sprintf "impl=[%s] model=[%s]" (String.concat "," (List.map string_of_int got_ids)) (String.concat "," (List.map string_of_int want_ids)));
     if removed <> [] then bump "droprange_effective";
     List.iter (fun t ->
         List.iter (fun e -> if not (in_bounds lo hi e.ukey) then
@@ -436,6 +477,22 @@ let () =
        let want = deque_run (sel (h_at s') s') pulls in
        let want_s = List.map (function None -> "." | Some e -> hex_of_bytes e.ukey ^ "=" ^ hex_of_bytes e.val0) want in
        if List.exists (fun x -> x <> ".") want_s then bump "scans_nonempty";
+       (* model agreement: the extracted scan pipeline on the dumped superversion *)
+       (match version_for_snapshot !cur s', kind, rest with
+        | Some sv, "range", lo :: hi :: _ ->
+          let ps = List.init (String.length pulls) (fun j -> if pulls.[j] = 'F' then Front else Back) in
+          let m = sv_range_run sv None (parse_bound lo) (parse_bound hi) s' ps in
+          let m_s = List.map (function None -> "." | Some e -> hex_of_bytes e.ukey ^ "=" ^ hex_of_bytes e.val0) m in
+          bump "scans_model_checked";
+          if m_s <> results then drift "model-range" (Printf.sprintf "%s %s impl=[%s] model=[%s]" lo hi (String.concat " " results) (String.concat " " m_s))
+        | Some sv, "prefix", p :: _ ->
+          let (lo, hi) = prefix_to_range (bytes_of_hex p) in
+          let ps = List.init (String.length pulls) (fun j -> if pulls.[j] = 'F' then Front else Back) in
+          let m = sv_range_run sv None lo hi s' ps in
+          let m_s = List.map (function None -> "." | Some e -> hex_of_bytes e.ukey ^ "=" ^ hex_of_bytes e.val0) m in
+          bump "scans_model_checked";
+          if m_s <> results then drift "model-prefix" (Printf.sprintf "%s impl=[%s] model=[%s]" p (String.concat " " results) (String.concat " " m_s))
+        | _ -> ());
        if want_s <> results then
          fail ~snap:is_snap ("oracle-" ^ kind) (Printf.sprintf "%s impl=[%s] spec=[%s]" (String.concat " " (List.filteri (fun j _ -> j < 3) rest)) (String.concat " " results) (String.concat " " want_s))
      | [ "O"; "len"; s; r ] ->
